@@ -23,6 +23,7 @@ Z = z3
 
 _UF = {}
 _DIV0 = 0
+INF_APPROX = []  # (fresh real, sign) standing for +-inf in symbolic selects
 
 
 def uf(name, arity=1):
@@ -315,7 +316,18 @@ def s_ite(c, a, b):
         return a if c != 0 else b
     c = to_bool(c)
     if isinstance(a, NonFinite) or isinstance(b, NonFinite):
-        raise Unsupported("symbolic select between non-finite constants")
+        # +-inf as one arm of a data-dependent select (e.g. where(d < 0, inf, d) before an argmin): approximated by a
+        # fresh real beyond +-10**15.  E1 records the approximation: `sat` is replayed on the real code as always, an
+        # `unsat` obtained under it is reported as inconclusive (inf - inf, 0 * inf are not modelled).
+        def _fin(v):
+            if not isinstance(v, NonFinite):
+                return v
+            if v.f != v.f:
+                raise Unsupported("symbolic select with a NaN constant")
+            sym = z3.Real(f"inf!{len(INF_APPROX)}")
+            INF_APPROX.append((sym, 1 if v.f > 0 else -1))
+            return sym
+        a, b = _fin(a), _fin(b)
     if is_conc(a) and is_conc(b) and type(a) is type(b) and a == b:
         return a
     if is_sym(a) and is_sym(b) and z3.eq(a, b):
